@@ -145,6 +145,18 @@ def run_case(ctx, rep, p, q, vars1, vars2, model, kinds=("?", "?"), start=None, 
         rep.agree()
     else:
         rep.tie("combine's output layout (file, offset per box) differs from the model's", case)
+    tok = lambda v: None if v is None else (v.split() if isinstance(v, str) else list(v))
+    mn = leanio.driver([{"op": "names", "tool": "combine", "names": list(pn), "names2": list(qn), "v1": tok(vars1), "v2": tok(vars2)}])[0]
+    if mn.get("fields") == Q["fields"] and mn.get("i1") == i1 and mn.get("i2") == i2:
+        rep.agree()
+    else:
+        rep.tie("the fields combine wrote (names / source positions) differ from the Lean merge rule", case,
+                {"real": Q["fields"], "model": mn})
+    cert = tastelib.wf_certificate(out, leanio)
+    if cert is None:
+        rep.agree(); rep.count("wf-certificate-passes")
+    elif cert != "names":
+        rep.tie(f"combine's output does not pass the Lean well-formedness certificate ({cert})", case)
     why = writers.global_header_theorem_applies(out, leanio)
     if why:
         rep.tie(f"global header of combine's output: {why} (whose parse-after-render law is proved)", case)
